@@ -151,25 +151,26 @@ def rule_i3(repo, res, guard_info):
     if len(p) != 5:
         raise AnalysisError("LexerError.__init__ signature changed; rule I3 needs (self, msg, doc, pos, lexeme)")
     _, msg, doc, pos, lexeme = p
+    # compared in canonical form (thin helpers inlined, single-assignment locals and attributes substituted),
+    # so that a named temporary or an inlined firstpos() reads the same
+    from . import canon, inline
+    cinit = canon.canon_method(repo, "LexerError", "__init__")
     assigns = {}
-    for n in init.body:
+    for n in cinit.body:
         if isinstance(n, ast.Assign) and len(n.targets) == 1:
             assigns[norm(n.targets[0])] = n.value
 
-    def resolve(name):
-        seen = 0
-        v = assigns.get(name)
-        while isinstance(v, ast.Name) and v.id in assigns and seen < 5:
-            v = assigns[v.id]
-            seen += 1
-        return v
-    vpos, vline, vcol = resolve("self.pos"), resolve("self.lineno"), resolve("self.colno")
-    ok_pos = vpos is not None and norm(vpos) == f"firstpos({lexeme}, {pos})"
-    ok_line = vline is not None and norm(vline) in (f"linecount({doc}, self.pos)",)
+    def expected(src):
+        e = ast.parse(src, mode="eval").body
+        return inline.inline_expr(repo, None, "exceptions", e)
+    vpos, vline, vcol = assigns.get("self.pos"), assigns.get("self.lineno"), assigns.get("self.colno")
+    P = f"firstpos({lexeme}, {pos})"
+    ok_pos = vpos is not None and norm(vpos) == norm(expected(P))
+    ok_line = vline is not None and norm(vline) == norm(expected(f"linecount({doc}, {P})"))
     ok_col = False
     if vcol is not None:
-        lf = {k: v for k, v in linear(vcol, p).items() if v}
-        ok_col = lf == {"self.pos": 1, f"{doc}.rfind('\\n', 0, self.pos)": -1}
+        nz = lambda d: {k: v for k, v in d.items() if v}
+        ok_col = nz(linear(vcol, p)) == nz(linear(expected(f"{P} - {doc}.rfind('\\n', 0, {P})"), p))
     for what, ok in (("self.pos = firstpos(lexeme, pos)", ok_pos), ("lineno = linecount(doc, self.pos)", ok_line),
                      ("colno = self.pos - doc.rfind('\\n', 0, self.pos)", ok_col)):
         res.oblige("I3", "LexerError.__init__: " + what, ok=ok)
